@@ -1286,7 +1286,7 @@ _BTree_setstate(BTree *self, PyObject *state, int noval)
             COPY_KEY_FROM_ARG(d->key, PyTuple_GET_ITEM(items, l), copied);
             l++;
             if (!copied)
-                return -1;
+                goto error;
             INCREF_KEY(d->key);
         }
         v = PyTuple_GET_ITEM(items, l);
@@ -1294,18 +1294,18 @@ _BTree_setstate(BTree *self, PyObject *state, int noval)
         {
             /* Handle the special case in __getstate__() for a BTree
                 with a single bucket. */
+            int status;
             d->child = BTree_newBucket(self);
             if (!d->child)
-                return -1;
+                goto error_key;
             if (noval)
-            {
-                if (_set_setstate(BUCKET(d->child), v) < 0)
-                return -1;
-            }
+                status = _set_setstate(BUCKET(d->child), v);
             else
+                status = _bucket_setstate(BUCKET(d->child), v);
+            if (status < 0)
             {
-                if (_bucket_setstate(BUCKET(d->child), v) < 0)
-                return -1;
+                Py_DECREF(d->child);
+                goto error_key;
             }
         }
         else
@@ -1318,13 +1318,15 @@ _BTree_setstate(BTree *self, PyObject *state, int noval)
                              Py_TYPE(v)->tp_name,
                              Py_TYPE(self)->tp_name,
                              leaftype->tp_name);
-                return -1;
+                goto error_key;
             }
 
             d->child = (Sized *)v;
             Py_INCREF(v);
         }
         l++;
+        /* Slot i is complete: from here on _BTree_clear() releases it. */
+        self->len = i + 1;
     }
 
     if (!firstbucket)
@@ -1334,7 +1336,7 @@ _BTree_setstate(BTree *self, PyObject *state, int noval)
     {
         PyErr_SetString(PyExc_TypeError,
                         "No firstbucket in non-empty BTree");
-        return -1;
+        goto error;
     }
     self->firstbucket = BUCKET(firstbucket);
     Py_INCREF(firstbucket);
@@ -1347,6 +1349,21 @@ _BTree_setstate(BTree *self, PyObject *state, int noval)
     self->len = len;
 
     return 0;
+
+    /* An unusable state: give back the children and keys taken so far (the
+     * key of the slot that could not be completed first), leaving an empty
+     * tree.
+     */
+error_key:
+#ifdef KEY_TYPE_IS_PYOBJECT
+    if (i)
+    {
+        DECREF_KEY(d->key);
+    }
+#endif
+error:
+    _BTree_clear(self);
+    return -1;
 }
 
 static PyObject *
